@@ -496,6 +496,18 @@ fn oracle_c07(c: &mut Case, evs: &[Evt], stop_handled: bool, t3: &mut Vec<(Strin
                     t3.push(("C06".into(), format!("connection c{id} was handed to a service after the worker had received Stop")));
                 }
             }
+            Evt::Ready(i, inc, 'E') => {
+                // (4') a service that answers a readiness check with Err is re-created then and there: the factory is asked
+                // for a new one before anything else happens (no further readiness poll of the failed instance, no call)
+                if !matches!(evs.get(k + 1), Some(Evt::Create(j)) if j == i) {
+                    for tag in ["C07", "C01"] {
+                        t3.push((tag.into(), format!(
+                            "service {i} (incarnation {inc}) answered a readiness check with Err and was not re-created: the next event of the poll is {} instead of a call of its factory — the failed instance stays in place; what is queued for it is handed to a broken service or never served",
+                            evs.get(k + 1).map_or("the end of the poll".to_string(), |e| e.show())
+                        )));
+                    }
+                }
+            }
             Evt::Create(i) => {
                 // (4) only the failed service is re-created
                 let ok = k >= 1 && matches!(&evs[k - 1], Evt::Ready(j, _, 'E') if j == i);
@@ -1142,6 +1154,10 @@ mod srvlevel {
     /// `served` counts the connections that presented `nonce` (this scenario's own clients): ports are reused
     /// quickly when many checks run at once, so a stranger may connect to this server, and a probe of this
     /// scenario may reach a stranger's server — neither may be mistaken for "served by this server"
+    /// `block=1`: the byte that makes the echo handler block its worker thread (synchronously) for BLOCK_MS
+    const BLOCK_BYTE: u8 = 0xB1;
+    const BLOCK_MS: u64 = 4000;
+
     /// when the echo service was last called (process-wide)
     static LAST_CALL: std::sync::Mutex<Option<Instant>> = std::sync::Mutex::new(None);
 
@@ -1154,6 +1170,10 @@ mod srvlevel {
             match stream.read(&mut buf).await {
                 Ok(0) | Err(_) => break,
                 Ok(n) => {
+                    if buf[..n].contains(&BLOCK_BYTE) {
+                        // a handler that does not yield: nothing else runs on this worker's thread meanwhile
+                        std::thread::sleep(Duration::from_millis(BLOCK_MS));
+                    }
                     if head.len() < 8 {
                         let before = head.len();
                         head.extend_from_slice(&buf[..n.min(8 - before)]);
@@ -1387,6 +1407,7 @@ mod srvlevel {
         gap2: u64,
         late: Option<bool>, // `late=g|f`: one more stop() after everything has completed (its future must resolve, too)
         lst: Lst,
+        block: bool, // `block=1` (mode=f): right before the stop every connection's handler starts to block its worker thread for 4 s
         calls: Option<Vec<Setter>>, // `calls=<setter>,…`: the builder's setters in this order (with `timeout` iff a time-out is configured)
         flood: usize, // `flood=N` (with paused=1, a unix listener): N clients queue up in the listen backlog while the server is
         // paused; resume() and stop() are called back to back: the accept thread is busy when it is told to stop
@@ -1467,6 +1488,11 @@ mod srvlevel {
                 Some(v)
             }
         };
+        let block = match kv(ws, "block") {
+            None => false,
+            Some("1") if !graceful && !holds.is_empty() => true,
+            _ => return None,
+        };
         let flood = match kv(ws, "flood") {
             None => 0,
             Some(f) => super::num(f)?,
@@ -1474,7 +1500,7 @@ mod srvlevel {
         if flood > 2000 || (flood > 0 && (kv(ws, "paused") != Some("1") || lst == Lst::Tcp || kv(ws, "drop") == Some("1"))) {
             return None;
         }
-        Some(Scn { workers, timeout, graceful, holds, second, gap2, late, lst, calls, flood, sysexit, dropfut: kv(ws, "drop") == Some("1"), paused: kv(ws, "paused") == Some("1") })
+        Some(Scn { workers, timeout, graceful, holds, second, gap2, late, lst, block, calls, flood, sysexit, dropfut: kv(ws, "drop") == Some("1"), paused: kv(ws, "paused") == Some("1") })
     }
 
     async fn scenario(sc: &Scn) -> Outcome {
@@ -1543,6 +1569,13 @@ mod srvlevel {
         tokio::time::sleep(Duration::from_millis(std::env::var("VH_SETTLE").ok().and_then(|v| v.parse().ok()).unwrap_or(100))).await;
         if sc.paused {
             handle.pause().await;
+        }
+        if sc.block {
+            use tokio::io::AsyncWriteExt;
+            for c in clients.iter_mut() {
+                let _ = c.write_all(&[BLOCK_BYTE]).await;
+            }
+            tokio::time::sleep(Duration::from_millis(200)).await; // the handlers have read it: their threads are busy now
         }
         let mut backlog = vec![];
         for _ in 0..sc.flood {
@@ -1721,7 +1754,7 @@ mod srvlevel {
         }
         // a forced stop tells every worker to stop at once; a worker that stops takes its connections with it: a connection
         // that its client never lets go of is closed by the server (one-sided: 5 s after the shutdown has completed)
-        if !sc.graceful && t_server.is_some() {
+        if !sc.graceful && t_server.is_some() && !sc.block {
             let t = Instant::now();
             loop {
                 out.left_open = (0..client_tasks.len()).filter(|i| sc.holds[*i].is_none() && !client_tasks[*i].is_finished()).collect();
@@ -1779,6 +1812,14 @@ mod srvlevel {
                     if ms + 60 < t_ms {
                         out.early.push(format!("connection {i}, still held by its client, was closed by the server {ms} ms into a graceful shutdown (shutdown_timeout {t_ms} ms)"));
                     }
+                }
+            }
+        }
+        if sc.block {
+            // a forced stop does not wait for the workers — a worker whose thread is busy answers late, nobody waits for that
+            if let Some(done_at) = t_stop.or(t_server) {
+                if done_at > 2000 {
+                    out.early.push(format!("[C06] stop(false) took {done_at} ms to complete while connection handlers kept the worker thread(s) busy (blocking for {BLOCK_MS} ms): a forced stop does not wait for the workers' answers"));
                 }
             }
         }
@@ -4271,6 +4312,9 @@ mod gen {
             srv(&mut *w, "workers=1 timeout=2 mode=g holds=n calls=timeout,blocking");
             srv(&mut *w, "workers=2 timeout=1 mode=g holds=n,300 calls=blocking,timeout,limit,backlog");
             srv(&mut *w, "workers=1 timeout=1 mode=g holds=n calls=timeout,limit,backlog,blocking");
+            // a handler that blocks its worker thread: a forced stop completes without it
+            srv(&mut *w, "workers=1 timeout=5 mode=f holds=n block=1");
+            srv(&mut *w, "workers=2 timeout=5 mode=f holds=n,n block=1 second=f");
             // system_exit() on a plain Tokio runtime (there is no actix System to stop): the Server future resolves all the same
             srv(&mut *w, "workers=1 timeout=1 mode=g holds=300 sysexit=1");
             srv(&mut *w, "workers=2 timeout=5 mode=f holds=n sysexit=1 second=g");
